@@ -439,5 +439,14 @@ LEVEL_NOTE = ("Trusted: Coq kernel, extraction (reduced by the in-kernel recheck
 TECHNIQUE = "Coq proof (model satisfies the specification for all requests, schedules and growth functions) + differential correspondence model vs. implementation"
 EXHAUSTIVE = False
 
+ERRS = r"(e = E_TOO_LONG \/ e = E_UNEXPECTED_END \/ e = E_SYNTAX)"
 THEOREMS = [
+    ("head_limit",
+     r"forall grow mode https dh (max_len : nat) limit stream (sched : list nat), contains_two_newlines (firstn max_len stream) = false -> exists e, serve grow mode https dh max_len limit stream sched = Err e /\ " + ERRS),
+    ("stalled_head",
+     r"forall grow mode https dh (max_len : nat) limit stream (sched : list nat), contains_two_newlines (firstn (sum_sched sched) stream) = false -> exists e, serve grow mode https dh max_len limit stream sched = Err e /\ " + ERRS),
+    ("body_exact",
+     r"forall grow mode early (cl limit : N) stream (sched : list nat), grow_ok grow -> sched_pos sched -> (N.to_nat (N.min cl limit) <= length early + Nat.min (sum_sched sched) (length stream))%nat -> exists r', read_to_bytes grow mode early cl limit (mk_reader stream sched) = Ok (firstn (N.to_nat (N.min cl limit)) (early ++ stream), r') /\ rd_data r' = skipn (N.to_nat (N.min cl limit) - length early) stream"),
+    ("body_any_schedule",
+     r"forall grow mode early (cl limit : N) stream (sched : list nat), grow_ok grow -> sched_pos sched -> match body_spec mode early cl limit (firstn (sum_sched sched) stream) with | Ok b => exists r', read_to_bytes grow mode early cl limit (mk_reader stream sched) = Ok (b, r') | Err e => read_to_bytes grow mode early cl limit (mk_reader stream sched) = Err e | Panic => False end"),
 ]
